@@ -34,7 +34,9 @@ LATE_TOK = ["`a\\|b`", "[l\\|m](u\\|v)", "<a href=\"x\\|y\">", "{% t a...b %}", 
             "[a](<>)", "[a]()", "<HTTP://U.V/it's>", "<o'r@b.cc>", "mailto:a@b.cc", "`` ` ``", "[![i](u 't')](v \"w\")", "[a][]", "<br/>",
             "www.a.b/c_d.", "http://a.b/c)", "http://a.b/c?d=e&amp;f=\"g\"", "[a](u 'it''s')", "[a](</u v>)", "![](u)",
             "![i][r]", "![r]", "[r][]", "[r]",
-            "http://u.v/\u4e2d\u6587abc/x", "www.u.v/a\u4e2d", "<http://u.v/\u4e2d\u6587abc>", "`\u4e2d\u6587abc`", "[l](u/\u4e2d\u6587abc)"]
+            "http://u.v/\u4e2d\u6587abc/x", "www.u.v/a\u4e2d", "<http://u.v/\u4e2d\u6587abc>", "`\u4e2d\u6587abc`", "[l](u/\u4e2d\u6587abc)",
+            # appended later: a backslash directly in front of a pipe (in a table cell the source `\\|` is a backslash and a pipe)
+            "`a\\\\|b`", "[l](u\\\\|v)", "`a\\\\`"]
 ALPH = SPANS_TOK + Q_TOK + LATE_TOK
 REPS = [ALPH.index(t) for t in ("aa", "`c d`", '[l](u "t")', "<http://u.v/it's>", "{% t a=\"x y\" b='z' %}", '"q', 'q"', "...", "it's")]
 
